@@ -80,6 +80,7 @@ struct websocket {
 
 	uint8_t sec_web_socket_key[SEC_WEB_SOCKET_KEY_LENGTH + SEC_WEB_SOCKET_GUID_LENGTH];
 	bool sec_web_socket_key_received;
+	bool sec_web_socket_version_received;
 	enum header_field current_header_field;
 
 	struct {
